@@ -198,7 +198,7 @@ theorem wf_writeColumn {f : Frame} (h : WF f) (col : List Val) (index : Option I
   unfold writeColumn
   split
   · exact h
-  · simp only
+  · try simp only
     split
     · exact h
     · split
@@ -209,12 +209,17 @@ theorem wf_writeColumn {f : Frame} (h : WF f) (col : List Val) (index : Option I
           split
           · exact h
           · rename_i ct hct
-            refine ⟨?_, h.nodup, h.units⟩
-            intro r' hr'
-            obtain ⟨r, hr, hh⟩ := writeColLoop_mem hr'
-            rcases hh with rfl | ⟨w, hw, rfl⟩
-            · exact h.rows _ hr
-            · exact rowOK_set (h.rows r hr) (types_get hct) hw
+            split
+            · rename_i rows' hloop
+              have e : rows' = (writeColLoop ct.2 c f.rows col).1 := by rw [hloop]
+              subst e
+              refine ⟨?_, h.nodup, h.units⟩
+              intro r' hr'
+              obtain ⟨r, hr, hh⟩ := writeColLoop_mem hr'
+              rcases hh with rfl | ⟨w, hw, rfl⟩
+              · exact h.rows _ hr
+              · exact rowOK_set (h.rows r hr) (types_get hct) hw
+            · exact h
 
 theorem wf_setCell {f : Frame} (h : WF f) {r c : Nat} {row : Row} {ct : String × ColType} {cell w : Val}
     (hrow : f.rows[r]? = some row) (hct : f.cols[c]? = some ct) (hw : conv ct.2 cell = .ok w) :
